@@ -112,6 +112,8 @@ impl Model {
 struct Obj {
     tx: Transaction,
     model: Model,
+    /// false once the library's serialisation was seen to differ from the harness model (the model only steers generation)
+    model_valid: bool,
     last_mut: String,
     depth: u32,
     /// snapshot for the isolation oracle
@@ -119,6 +121,33 @@ struct Obj {
     snap_slots: [Option<Vec<u8>>; 3],
     /// expected slot values for snap_bytes (computed lazily)
     expect: Option<[Vec<u8>; 3]>,
+    /// history, not internals: a FORKID signature-hash call has succeeded on this object (or on the one it was cloned from)
+    /// since it was last rebuilt from a serialisation - i.e. an implementation that memoises has had the chance to
+    primed: bool,
+}
+
+/// Does the object behave, for any cache-reading flag and input, differently from a freshly parsed copy of its own serialisation?
+/// Used to turn "the hook shows a slot that a fresh object would not compute" into a verdict: a memo that is stale but never
+/// honoured (lazy invalidation) is not a violation, one that is honoured is.
+fn behaviour_differs(tx: &mut Transaction, bytes: &[u8]) -> Option<String> {
+    let mut fresh = Transaction::from_bytes(bytes).ok()?;
+    let n = tx.get_ninputs().min(4);
+    if n == 0 {
+        let (a, b) = (tx.hash_inputs(SigHash::InputsOutputs), fresh.hash_inputs(SigHash::InputsOutputs));
+        return if a != b { Some("hash_inputs(InputsOutputs)".into()) } else { None };
+    }
+    let sub = Script::default();
+    for f in [0x41u8, 0x42, 0x43, 0xc1, 0xc2, 0xc3] {
+        let flag = SigHash::try_from(f).ok()?;
+        for i in 0..n {
+            let a = tx.sighash_preimage(flag, i, &sub, 1).ok();
+            let b = fresh.sighash_preimage(flag, i, &sub, 1).ok();
+            if a != b {
+                return Some(format!("sighash_preimage({}, input {})", flag_name(f), i));
+            }
+        }
+    }
+    None
 }
 
 fn mk_txin(v: &Value) -> Option<(TxIn, MIn)> {
@@ -566,9 +595,11 @@ impl Scenario for TxHistory {
             snap_slots: [None, None, None],
             tx: t0,
             model: Model { version: 2, ins: vec![], outs: vec![], locktime: 0 },
+            model_valid: true,
             last_mut: "new".into(),
             depth: 0,
             expect: None,
+            primed: false,
         });
 
         for (seq, ev) in plan.events.iter().enumerate() {
@@ -582,8 +613,9 @@ impl Scenario for TxHistory {
                 ctx.skip();
                 continue;
             }
-            let slots_before = objs[o].tx.verif_hash_cache();
-            let any_filled = slots_before.iter().any(|s| s.is_some());
+            // "a memo may exist" is decided from the history of calls, never from the library's internals: the probes below
+            // must fire on an implementation that memoises differently or not at all
+            let any_filled = objs[o].primed;
             let mut new_obj: Option<Obj> = None;
             let mut touched_cache_ok = false; // event is allowed to change memo slots of obj o
             let mut is_mutator = false;
@@ -743,7 +775,7 @@ impl Scenario for TxHistory {
                         ctx.probe("fork_applied");
                         let rb = returned.to_bytes().unwrap_or_default();
                         let rs = returned.verif_hash_cache();
-                        new_obj = Some(Obj { tx: returned, model: objs[o].model.clone(), last_mut: op.clone(), depth: objs[o].depth + 1, snap_bytes: rb, snap_slots: rs, expect: None });
+                        new_obj = Some(Obj { tx: returned, model: objs[o].model.clone(), model_valid: objs[o].model_valid, last_mut: op.clone(), depth: objs[o].depth + 1, snap_bytes: rb, snap_slots: rs, expect: None, primed: objs[o].primed });
                     }
                 }
                 "sighash" | "sign" | "sign_with_k" => {
@@ -806,6 +838,9 @@ impl Scenario for TxHistory {
                             match (&got, &want) {
                                 (Ok(g), Ok(w)) => {
                                     ctx.observe(g);
+                                    if flag_b & 0x40 != 0 {
+                                        objs[o].primed = true;
+                                    }
                                     if g != w {
                                         if ctx.violate(
                                             "mismatch",
@@ -857,25 +892,17 @@ impl Scenario for TxHistory {
                                     let gb = g.to_bytes().unwrap_or_default();
                                     let wb = w.to_bytes().unwrap_or_default();
                                     ctx.observe(&gb);
-                                    let pk = lib!("to_public_key", key.to_public_key());
-                                    let mut bad = gb != wb;
-                                    let mut why = "signature bytes differ from those produced on the freshly parsed copy";
+                                    if flag_b & 0x40 != 0 {
+                                        objs[o].primed = true;
+                                    }
+                                    let bad = gb != wb;
+                                    let why = "signature bytes differ from those produced on the freshly parsed copy";
                                     if !bad {
-                                        if let Ok(pk) = pk {
-                                            // the signature must verify against the history-free preimage
-                                            let pre = lib!("sighash_preimage(fresh2)", fresh.sighash_preimage(flag, idx, &sub, value));
-                                            if let (Ok(pre), Ok(sig)) = (pre, Signature::from_der(&gb)) {
-                                                let ss = SighashSignature::new(&sig, flag, &pre);
-                                                let ok = lib!("verify", objs[o].tx.verify(&pk, &ss));
-                                                if !ok {
-                                                    bad = true;
-                                                    why = "signature does not verify against the preimage of the freshly parsed copy";
-                                                }
-                                            }
-                                            let ok_live = lib!("verify(live)", objs[o].tx.verify(&pk, &g));
-                                            if !ok_live && !bad {
-                                                bad = true;
-                                                why = "Transaction::verify rejects the signature it just produced";
+                                        // whether the signature verifies is another property's statement (C05/C15): recorded only
+                                        if let Ok(Ok(pk)) = guard(|| key.to_public_key()) {
+                                            match guard(|| objs[o].tx.verify(&pk, &g)) {
+                                                Ok(true) => ctx.probe("own_signature_verifies_on_live_object"),
+                                                _ => ctx.probe("own_signature_does_not_verify_on_live_object"),
                                             }
                                         }
                                     }
@@ -915,6 +942,7 @@ impl Scenario for TxHistory {
                     let last_mut = objs[o].last_mut.clone();
                     let t = &mut objs[o].tx;
                     let got = lib!("hash_inputs", t.hash_inputs(flag));
+                    objs[o].primed = true;
                     if let Ok(mut fresh) = Transaction::from_bytes(&bytes) {
                         let want = lib!("hash_inputs(fresh)", fresh.hash_inputs(flag));
                         ctx.observe(&got);
@@ -977,7 +1005,7 @@ impl Scenario for TxHistory {
                     let c = lib!("clone", objs[o].tx.clone());
                     let cb = c.to_bytes().unwrap_or_default();
                     let cs = c.verif_hash_cache();
-                    new_obj = Some(Obj { tx: c, model: objs[o].model.clone(), last_mut: objs[o].last_mut.clone(), depth: objs[o].depth + 1, snap_bytes: cb, snap_slots: cs, expect: objs[o].expect.clone() });
+                    new_obj = Some(Obj { tx: c, model: objs[o].model.clone(), model_valid: objs[o].model_valid, last_mut: objs[o].last_mut.clone(), depth: objs[o].depth + 1, snap_bytes: cb, snap_slots: cs, expect: objs[o].expect.clone(), primed: objs[o].primed });
                 }
                 "restart" => {
                     let kind = jstr(ev, "kind").to_string();
@@ -1014,6 +1042,7 @@ impl Scenario for TxHistory {
                         ctx.probe("restored_object_carries_memo");
                     }
                     objs[o].tx = restored;
+                    objs[o].primed = false;
                     touched_cache_ok = true;
                 }
                 _ => {
@@ -1055,25 +1084,23 @@ impl Scenario for TxHistory {
                     // O4 isolation: nothing about an object that was not addressed may change
                     // (memo slots of another object may change - e.g. a shared cache that is maintained correctly - as long
                     // as they stay right for that object's contents, which O2 checks below)
+                    // aliasing between objects is not what C04 states (each object is judged against a fresh parse of its own
+                    // current serialisation whatever made it current): recorded, and the model follows the library
                     if bytes != objs[k].snap_bytes {
-                        if ctx.violate("isolation", format!("isolation:{} changed another object", op), format!("event `{}` on object {} changed the serialisation of object {}", op, o, k)) {
-                            return;
-                        }
+                        ctx.probe("note:event_changed_serialisation_of_another_object");
+                        objs[k].model_valid = false;
                     }
                 }
                 if k == o {
                     // O3 model
-                    let want = objs[k].model.serialise();
-                    if bytes != want {
-                        if ctx.violate("model", format!("model:to_bytes after {}", op), format!("to_bytes() after `{}` differs from the reference serialisation of the model: lib={} model={}", op, hx(&bytes), hx(&want))) {
-                            return;
-                        }
+                    // where a mutator puts its argument and what the wire format is are other properties' statements (C01/C02);
+                    // here the model only steers generation, so a disagreement is recorded and the object judged on as before
+                    if objs[k].model_valid && bytes != objs[k].model.serialise() {
+                        ctx.probe("note:serialisation_differs_from_harness_model");
+                        objs[k].model_valid = false;
                     }
-                    // read-only and failed calls must not change bytes
                     if !is_mutator && op != "restart" && bytes != objs[k].snap_bytes {
-                        if ctx.violate("isolation", format!("readonly:{} changed contents", op), format!("non-mutating event `{}` changed the serialisation", op)) {
-                            return;
-                        }
+                        ctx.probe("note:non_mutating_call_changed_serialisation");
                     }
                     if op == "read" && slots != objs[k].snap_slots {
                         // a read-only call may warm the memo (O2 judges what it put there)
@@ -1092,14 +1119,30 @@ impl Scenario for TxHistory {
                         for j in 0..3 {
                             if let Some(s) = &slots[j] {
                                 if !exp[j].is_empty() && *s != exp[j] {
+                                    // the hook only points at where to look; the verdict is behavioural. A memo that is stale but
+                                    // never honoured (dirty flag, generation counter) is a correct implementation.
                                     let lm = objs[k].last_mut.clone();
-                                    if ctx.violate(
-                                        "stale",
-                                        format!("stale-slot:{} after {}", SLOT_NAMES[j], lm),
-                                        format!("memo slot {} of object {} holds {} but a freshly parsed copy computes {} (last mutator `{}`, event `{}`)", SLOT_NAMES[j], k, hx(s), hx(&exp[j]), lm, op),
-                                    ) {
-                                        return;
+                                    let mut twin = objs[k].tx.clone();
+                                    let shown = match guard(|| behaviour_differs(&mut twin, &bytes)) {
+                                        Ok(Some(w)) => Some(format!("{} on a clone", w)),
+                                        _ => match guard(|| behaviour_differs(&mut objs[k].tx, &bytes)) {
+                                            Ok(w) => w,
+                                            Err(_) => None,
+                                        },
+                                    };
+                                    match shown {
+                                        Some(what) => {
+                                            if ctx.violate(
+                                                "stale",
+                                                format!("stale-slot:{} after {}", SLOT_NAMES[j], lm),
+                                                format!("memo slot {} of object {} holds {} where a freshly parsed copy computes {} (last mutator `{}`, event `{}`), and the stale value is honoured: {} differs from the freshly parsed copy", SLOT_NAMES[j], k, hx(s), hx(&exp[j]), lm, op, what),
+                                            ) {
+                                                return;
+                                            }
+                                        }
+                                        None => ctx.probe("slot_differs_from_fresh_but_is_never_honoured"),
                                     }
+                                    break;
                                 }
                             }
                         }
